@@ -11,12 +11,12 @@ import (
 // C13 / C10: wire codecs through the verif hooks.
 
 type jAckCase struct {
-	Kind    string `json:"kind"` // "ack"
-	Digest  string `json:"digest"`
-	Sender  uint16 `json:"sender"`
-	Round   uint8  `json:"round"`
-	EncPan  bool   `json:"enc_panic"`
-	Enc     string `json:"enc"`
+	Kind   string `json:"kind"` // "ack"
+	Digest string `json:"digest"`
+	Sender uint16 `json:"sender"`
+	Round  uint8  `json:"round"`
+	EncPan bool   `json:"enc_panic"`
+	Enc    string `json:"enc"`
 }
 
 type jDecCase struct {
